@@ -51,13 +51,15 @@ def onToken (less : List Bytes → List Bytes → Bool) (a b : Line) : Bool := l
 
 theorem onToken_strictWeak {less : List Bytes → List Bytes → Bool} (h : EditSpec.StrictWeak less) :
     EditSpec.StrictWeak (onToken less) :=
-  ⟨fun a => h.irrefl _, fun a b => h.asymm _ _, fun a b c => h.trans _ _ _, fun a b c => h.negTrans _ _ _⟩
+  ⟨fun _ => h.irrefl _, fun _ _ => h.asymm _ _, fun _ _ _ => h.trans _ _ _, fun _ _ _ => h.negTrans _ _ _⟩
 
 theorem insertLine_eq (less : List Bytes → List Bytes → Bool) (x : Line) (l : List Line) :
     insertLine less x l = EditSpec.insertBy (onToken less) x l := by
   induction l with
   | nil => rfl
-  | cons y ys ih => simp [insertLine, EditSpec.insertBy, onToken, ih]
+  | cons y ys ih =>
+    simp only [insertLine, EditSpec.insertBy, onToken, ih]
+    by_cases h : less y.token x.token = true <;> simp [h]
 
 theorem stableSort_eq (less : List Bytes → List Bytes → Bool) (l : List Line) :
     stableSort less l = EditSpec.sortBy (onToken less) l := by
@@ -87,5 +89,49 @@ theorem workCleanup_no_cleared (e : EWork) :
     (∀ r ∈ (workCleanup e).f.replace, r.old.path ≠ []) := by
   refine ⟨?_, ?_, ?_⟩ <;> intro x hx <;> simp only [workCleanup, List.mem_filter] at hx <;>
     (have h := hx.2; simp at h; exact h)
+
+end ModVerif.Modfile.Edit
+
+namespace ModVerif.Modfile.Edit
+open ModVerif ModVerif.Modfile
+
+/-- the comparator SortBlocks uses for a block with the given verb tokens -/
+def lessFor (useSemantic work : Bool) (token : List Bytes) : List Bytes → List Bytes → Bool :=
+  if work then lineLess
+  else if headIs token (B "exclude") && useSemantic then lineExcludeLess
+  else if headIs token (B "retract") then lineRetractLess
+  else lineLess
+
+theorem sortStmts_block (sem work : Bool) (stmts : List Expr) (b : LineBlock)
+    (h : Expr.lineBlock b ∈ sortStmts sem work stmts) :
+    ∃ b0, Expr.lineBlock b0 ∈ stmts ∧ b.token = b0.token ∧ b.lines = stableSort (lessFor sem work b0.token) b0.lines := by
+  unfold sortStmts at h
+  rcases List.mem_map.1 h with ⟨x, hx, hxe⟩
+  cases x with
+  | lineBlock b0 =>
+    simp only [Expr.lineBlock.injEq] at hxe
+    refine ⟨b0, hx, ?_, ?_⟩
+    · rw [← hxe]
+    · rw [← hxe]; simp only [lessFor]
+  | commentBlock _ => simp at hxe
+  | line _ => simp at hxe
+  | lparen _ => simp at hxe
+  | rparen _ => simp at hxe
+
+/-- when is the comparator known to be a strict weak order on ALL token lists: every case but an exclude
+    block under the semantic order (there it is one on two-token lines only, see Props/C16) -/
+theorem lessFor_strictWeak (sem work : Bool) (token : List Bytes)
+    (h : work = true ∨ (headIs token (B "exclude") && sem) = false) : EditSpec.StrictWeak (lessFor sem work token) := by
+  unfold lessFor
+  by_cases hw : work = true
+  · simp [hw]; exact lineLess_strictWeak
+  · have hx : (headIs token (B "exclude") && sem) = false := by
+      rcases h with h | h
+      · exact absurd h hw
+      · exact h
+    simp only [hw, hx]
+    by_cases hr : headIs token (B "retract") = true
+    · simp [hr]; exact lineRetractLess_strictWeak
+    · simp [hr]; exact lineLess_strictWeak
 
 end ModVerif.Modfile.Edit
